@@ -83,6 +83,7 @@ func c01(p *core.Program, r *core.Report) {
 	// readers that size the array as count*stride) - the rule is C19's, the obligation is also this property's
 	wholeFixRule(p, r, "fix-appended-whole")
 	appendHelpersRule(p, r, "append-helpers-return-dst")
+	rowRebaseRule(p, r, "ends-row-rebased")
 
 	// ---- rule 1: stride-mismatch rejection guards every store of a caller-supplied coordinate
 	const r1 = "stride-guard"
@@ -469,6 +470,65 @@ func c02(p *core.Program, r *core.Report) {
 				return true
 			}
 			blocked := eqPassEdges(fn, isRecvLayout, isOtherLayout)
+			// err == nil for err := helper(recv-part, other-part): a helper of the package that returns nil exactly
+			// when the layout fields of the two objects it is handed agree
+			for _, b := range fn.Blocks {
+				for edge := 0; edge < 2; edge++ {
+					c, ok := eng.EdgeCmp(b, edge)
+					if !ok || c.Op != token.EQL {
+						continue
+					}
+					for _, pair := range [][2]ssa.Value{{c.X, c.Y}, {c.Y, c.X}} {
+						call, isCall := pair[0].(*ssa.Call)
+						if !isCall || !eng.IsNilConst(pair[1]) || call.Call.StaticCallee() == nil {
+							continue
+						}
+						h := call.Call.StaticCallee()
+						if h.Pkg != fn.Pkg || len(h.Blocks) == 0 || len(h.Params) != len(call.Call.Args) {
+							continue
+						}
+						ri, oi := -1, -1
+						for k, a := range call.Call.Args {
+							if _, isPtr := a.Type().Underlying().(*types.Pointer); !isPtr {
+								continue
+							}
+							if rootedAtParam(a, recvP) {
+								ri = k
+							} else if rb, _ := fieldRoot(a); rb != nil {
+								if _, isPrm := rb.(*ssa.Parameter); isPrm {
+									oi = k
+								}
+							}
+						}
+						if ri < 0 || oi < 0 {
+							continue
+						}
+						layoutOf := func(prm *ssa.Parameter) func(ssa.Value) bool {
+							return func(v ssa.Value) bool {
+								b, pth, ok := fieldLoad(v)
+								return ok && b == ssa.Value(prm) && strings.HasSuffix(pth, ".layout")
+							}
+						}
+						pass := eqPassEdges(h, layoutOf(h.Params[ri]), layoutOf(h.Params[oi]))
+						if len(pass) == 0 {
+							continue
+						}
+						reachH := eng.Reachable(h.Blocks[0], pass)
+						nilOnlyWhenEqual, nNil := true, 0
+						for _, hb := range h.Blocks {
+							if ret, isRet := hb.Instrs[len(hb.Instrs)-1].(*ssa.Return); isRet && len(ret.Results) == 1 && eng.IsNilConst(ret.Results[0]) {
+								nNil++
+								if reachH[hb] {
+									nilOnlyWhenEqual = false
+								}
+							}
+						}
+						if nilOnlyWhenEqual && nNil > 0 {
+							blocked[[2]int{b.Index, edge}] = true
+						}
+					}
+				}
+			}
 			if len(blocked) == 0 {
 				bad = "no comparison of the part's layout with the receiver's layout"
 			} else {
@@ -685,6 +745,7 @@ func c02(p *core.Program, r *core.Report) {
 		}
 	}
 	lastNonEmptyScanRule(p, r, "previous-non-empty-scan", 1, "")
+	rowRebaseRule(p, r, "ends-row-rebased")
 
 	// ---- rule 5b: a part is reported empty only when it has no sub-parts
 	const r5b = "empty-part-by-structure"
@@ -862,6 +923,143 @@ func appendHelpersPass(p *core.Program, r *core.Report, rule string, rels []stri
 					r.OK(rule, key, p.Pos(fn.Pos()), true, fmt.Sprintf("%d successful return(s), all derived from %s", len(good), prm.Name()))
 				}
 			}
+		}
+	}
+}
+
+// rowRebaseRule (C01/C02): MultiPolygon keeps its rings' ends as absolute positions in the shared flat array.
+// Where a row of ends moves between a part and the collection it is shifted by an offset X; an UNSHIFTED
+// transfer (copy / append-spread / slices.Clone of the row) is right only where X is known to be 0.
+func rowRebaseRule(p *core.Program, r *core.Report, rule string) {
+	r.Rule(rule, "in MultiPolygon.Push and MultiPolygon.Polygon, which move a row of ring ends between a polygon and the collection by adding/subtracting an offset X (the length of the flat array before the part), every unshifted transfer of such a row (copy, append of the spread row, slices.Clone) lies on paths that all pass the true edge of X == 0: a row copied verbatim behind coordinates that are already there records ends that go backwards", 2)
+	for _, name := range []string{"(*MultiPolygon).Push", "(*MultiPolygon).Polygon"} {
+		fn := mustFn(p, r, rule, "", name)
+		if fn == nil {
+			continue
+		}
+		isParamV := func(v ssa.Value) bool {
+			for _, q := range fn.Params {
+				if v == ssa.Value(q) {
+					return true
+				}
+			}
+			return false
+		}
+		// a []int row rooted at a parameter's ends / endss field
+		rowOfParam := func(v ssa.Value) bool {
+			v = eng.StripConv(v)
+			if !isIntSliceT(v.Type()) {
+				return false
+			}
+			if sl, ok := v.(*ssa.Slice); ok {
+				v = sl.X
+			}
+			if b, path, ok := fieldLoad(v); ok && isParamV(b) && strings.HasSuffix(path, ".ends") {
+				return true
+			}
+			if ld, ok := v.(*ssa.UnOp); ok && ld.Op == token.MUL {
+				if ia, ok := ld.X.(*ssa.IndexAddr); ok {
+					if b, path, ok := fieldLoad(ia.X); ok && isParamV(b) && strings.HasSuffix(path, ".endss") {
+						return true
+					}
+				}
+			}
+			return false
+		}
+		elemOfRow := func(v ssa.Value) bool {
+			v = eng.StripConv(v)
+			switch x := v.(type) {
+			case *ssa.UnOp:
+				if ia, ok := x.X.(*ssa.IndexAddr); ok && x.Op == token.MUL {
+					return rowOfParam(ia.X)
+				}
+			case *ssa.Extract: // range over the row: (ok, k, v) tuples are not used for slices; kept for completeness
+			}
+			return false
+		}
+		// the offsets X of the shifted stores
+		var offsets []ssa.Value
+		for _, b := range fn.Blocks {
+			for _, in := range b.Instrs {
+				st, ok := in.(*ssa.Store)
+				if !ok {
+					continue
+				}
+				bo, ok := st.Val.(*ssa.BinOp)
+				if !ok || (bo.Op != token.ADD && bo.Op != token.SUB) {
+					continue
+				}
+				if _, ok := st.Addr.(*ssa.IndexAddr); !ok {
+					continue
+				}
+				switch {
+				case elemOfRow(bo.X):
+					offsets = append(offsets, eng.StripConv(bo.Y))
+				case elemOfRow(bo.Y) && bo.Op == token.ADD:
+					offsets = append(offsets, eng.StripConv(bo.X))
+				}
+			}
+		}
+		sameOffset := func(v ssa.Value) bool {
+			v = eng.StripConv(v)
+			lenOf := func(x ssa.Value) (ssa.Value, string, bool) {
+				c, ok := x.(*ssa.Call)
+				if !ok || eng.BuiltinName(c) != "len" {
+					return nil, "", false
+				}
+				return fieldLoad(c.Call.Args[0])
+			}
+			for _, o := range offsets {
+				if o == v {
+					return true
+				}
+				if b1, p1, ok1 := lenOf(o); ok1 {
+					if b2, p2, ok2 := lenOf(v); ok2 && b1 == b2 && p1 == p2 {
+						return true
+					}
+				}
+			}
+			return false
+		}
+		n := 0
+		for _, c := range eng.Calls(fn) {
+			var src ssa.Value
+			how := ""
+			args := c.Common().Args
+			switch {
+			case eng.BuiltinName(c) == "copy" && len(args) == 2:
+				src, how = args[1], "copy"
+			case eng.BuiltinName(c) == "append" && len(args) == 2 && isIntSliceT(args[1].Type()):
+				src, how = args[1], "append of the spread row"
+			case eng.IsCallTo(c, "slices", "Clone") && len(args) == 1:
+				src, how = args[0], "slices.Clone"
+			default:
+				continue
+			}
+			if !rowOfParam(src) {
+				continue
+			}
+			n++
+			key := fmt.Sprintf("%s/unshifted-row#%d", short(fn), n)
+			if len(offsets) == 0 {
+				r.Bad(rule, key, p.Pos(c.Pos()), "a row of ends is transferred verbatim ("+how+") and no element is ever shifted by an offset in this function: positions are not rebased")
+				continue
+			}
+			guarded := false
+			for _, e := range mustEdgesTo(fn, c.Block()) {
+				if cc, ok := eng.EdgeCmp(fn.Blocks[e[0]], e[1]); ok && cc.Op == token.EQL {
+					if k, isC := eng.ConstInt(cc.Y); isC && k == 0 && sameOffset(cc.X) {
+						guarded = true
+					}
+					if k, isC := eng.ConstInt(cc.X); isC && k == 0 && sameOffset(cc.Y) {
+						guarded = true
+					}
+				}
+			}
+			r.Check(guarded, rule, key, p.Pos(c.Pos()), true, "the verbatim "+how+" is reached only when the offset is 0", "the row of ends is transferred verbatim ("+how+" at "+p.Pos(c.Pos())+") on a path that does not establish that the offset it is shifted by elsewhere is 0: behind coordinates that are already there the recorded ends go backwards (a polygon whose rings are all empty pushed after a non-empty one)")
+		}
+		if n == 0 {
+			r.OK(rule, short(fn)+"/always-shifted", p.Pos(fn.Pos()), true, "no verbatim transfer of an ends row: every element is shifted")
 		}
 	}
 }
